@@ -376,8 +376,10 @@ func init() { vfRegister("VF_C15_reference_lazy", VF_C15_reference_lazy) }
 // every dependant not yet evaluated.
 func VF_C15_reference_lazy() {
 	w := vfWire()
-	x := vfStr("x", vfBound("c15.ref", 2, 3))
-	vfAssume(vfInRe(x, `\A`+docName+`\z`) && x != "dep")
+	// the names are concrete (three shapes of the name grammar): what is checked is the
+	// form of the compiled code, and concrete names keep it free of solver reasoning
+	// about the quoting function
+	x := []string{"t", "db", "a.b-c"}[vfChoice("x", 3)]
 	var target any
 	switch vfChoice("target", 3) {
 	case 0:
